@@ -1,6 +1,6 @@
 (* C16  A trained model is a function of the labelled sample multiset and the seed only. *)
 From Coq Require Import Reals List Permutation.
-From BLE Require Import Num.InstR Model.GMM Model.KMeans Model.Linear Proofs.RLemmas Proofs.GMMLik Proofs.GMMStats Proofs.KMeansR Proofs.LinearR Generated.Facts Proofs.FactsDefs Proofs.Rng.
+From BLE Require Import Num.InstR Model.GMM Model.KMeans Model.Linear Proofs.RLemmas Proofs.GMMLik Proofs.GMMStats Proofs.KMeansR Proofs.LinearR Model.FA Proofs.FAEnroll Proofs.FAAcc Generated.Facts Proofs.FactsDefs Proofs.Rng.
 Import ListNotations.
 Open Scope R_scope.
 
@@ -36,6 +36,20 @@ Theorem C16_label_renaming_gives_the_same_groups {A} (f : nat -> nat) (order y :
   NR.group (map f order) (map f y) X = NR.group order y X.
 Proof. exact (group_relabel f order y X). Qed.
 Print Assumptions C16_label_renaming_gives_the_same_groups.
+
+(* ISV / JFA: renaming the classes by any permutation of the ids leaves a training iteration unchanged *)
+Theorem C16_isv_and_jfa_iterations_invariant_under_class_permutation inv (C D rU rV : nat) (u : FR.ubm) (F : FR.fa) (cl cl' : list (list FR.gstat)) :
+  ubm_ok C D u -> fa_ok C D rU rV F ->
+  (forall A, length (inv A) = rU /\ Forall (fun r => length r = rU) (inv A)) ->
+  (forall A, length (inv A) = rV /\ Forall (fun r => length r = rV) (inv A)) ->
+  Permutation cl cl' -> classes_ok C D cl ->
+  FR.isv_iter inv rU D u cl F = FR.isv_iter inv rU D u cl' F /\ FR.jfa_iter_v inv rU rV D u cl F = FR.jfa_iter_v inv rU rV D u cl' F.
+Proof.
+  intros Hu HF H1 H2 P Hc. split.
+  - exact (isv_iter_class_order inv C D rU rV u F Hu HF H1 H2 cl cl' P Hc).
+  - exact (jfa_iter_v_class_order inv C D rU rV u F Hu HF H1 H2 cl cl' P Hc).
+Qed.
+Print Assumptions C16_isv_and_jfa_iterations_invariant_under_class_permutation.
 
 Theorem C16_generated_seeding_facts : extraction_error = false /\ seeding_ok = true.
 Proof. exact generated_seeding_obligation. Qed.
